@@ -31,12 +31,12 @@ var (
 	EditTools      = []string{"a.com/x/cmd/t", "b.com/y/t2", "d.com/w/cmd/q"}
 	EditGodebugKey = []string{"k1", "k2", "k3"}
 	EditGodebugVal = []string{"0", "1", "2"}
-	EditUseDirs    = []string{"./a", "./b", "../c", "./d e", "./f"}
+	EditUseDirs    = []string{"./a", "./b", "../c", "./d e", "./f", "./g//h"}
 	EditGoVersions = []string{"1.9", "1.20", "1.21", "1.21.0", "1.22.1", "1.100"}
 	EditToolchains = []string{"go1.21.0", "go1.22.1", "default"}
 	EditModules    = []string{"m.com/m", "n.com/n"}
 	// replacement targets: directories have no version
-	EditTargets = [][2]string{{"../x", ""}, {"../y", ""}, {"e.com/fork", "v1.0.0"}, {"e.com/fork", "v1.1.0"}}
+	EditTargets = [][2]string{{"../x", ""}, {"../y", ""}, {"e.com/fork", "v1.0.0"}, {"e.com/fork", "v1.1.0"}, {"../z//w", ""}, {"./sp ace", ""}}
 )
 
 // EditLine describes one directive line of a generated file.
@@ -95,7 +95,7 @@ type editGen struct {
 
 // EditQuote quotes a token the way go.mod syntax requires for the strings of the universe.
 func EditQuote(s string) string {
-	if s == "" || strings.ContainsAny(s, " \"'`") {
+	if s == "" || strings.ContainsAny(s, " \"'`") || strings.Contains(s, "//") {
 		return strconv.Quote(s)
 	}
 	return s
@@ -261,7 +261,7 @@ func (g *editGen) replaceSpec() editSpec {
 	if ov != "" {
 		s += " " + ov
 	}
-	s += " => " + t[0]
+	s += " => " + EditQuote(t[0])
 	if t[1] != "" {
 		s += " " + t[1]
 	}
